@@ -36,51 +36,155 @@ Proof.
   - intro H. exists (mkName (Some service) (Some method)). split; [exact H|]. now apply selector_matches_spec.
 Qed.
 
-(* the entry that applies is the FIRST entry of the list whose name list contains the selector *)
-Lemma selector_first_match : forall cfg service method mc,
-  lookup cfg service method = Some mc <->
-  exists pre post, cfg = (pre ++ mc :: post)%list /\
-                   In (mkName (Some service) (Some method)) (mc_names mc) /\
-                   (forall c, In c pre -> ~ In (mkName (Some service) (Some method)) (mc_names c)).
+Definition service_wide (service : string) (n : name_sel) : Prop :=
+  n = mkName (Some service) None \/ n = mkName (Some service) (Some "").
+
+Lemma service_wide_matches_spec : forall service n,
+  service_wide_matches service n = true <-> service_wide service n.
 Proof.
-  intros cfg service method mc. unfold lookup. split.
-  - induction cfg as [|c cfg IH]; simpl; [discriminate|].
-    destruct (names_method service method c) eqn:E.
-    + intro H. inversion H. subst. exists [], cfg. repeat split.
-      * now apply names_method_spec.
-      * intros c' [].
+  intros service [s m]. unfold service_wide_matches, service_wide. simpl. split.
+  - intro H. apply andb_true_iff in H. destruct H as [H1 H2].
+    destruct s as [s|]; [|discriminate]. simpl in H1. apply String.eqb_eq in H1. subst s.
+    destruct m as [m|]; [|now left]. right. destruct m; [reflexivity|discriminate].
+  - intros [H|H]; inversion H; subst; simpl; now rewrite String.eqb_refl.
+Qed.
+
+Lemma names_service_spec : forall service mc,
+  names_service service mc = true <-> exists n, In n (mc_names mc) /\ service_wide service n.
+Proof.
+  intros service mc. unfold names_service. rewrite existsb_exists. split.
+  - intros [n [Hin Hm]]. exists n. split; [exact Hin|]. now apply service_wide_matches_spec.
+  - intros [n [Hin Hm]]. exists n. split; [exact Hin|]. now apply service_wide_matches_spec.
+Qed.
+
+(* find returns the FIRST element of the list that satisfies the test *)
+Lemma find_first_spec : forall (A : Type) (f : A -> bool) (l : list A) (x : A),
+  find f l = Some x <->
+  exists pre post, l = (pre ++ x :: post)%list /\ f x = true /\ (forall c, In c pre -> f c = false).
+Proof.
+  intros A f l x. split.
+  - induction l as [|c l IH]; simpl; [discriminate|].
+    destruct (f c) eqn:E.
+    + intro H. inversion H. subst. exists [], l. repeat split; [exact E | intros c' []].
     + intro H. destruct (IH H) as [pre [post [E1 [E2 E3]]]]. exists (c :: pre), post. repeat split.
       * simpl. now rewrite E1.
       * exact E2.
-      * intros c' [Hc|Hc]; [subst c'|now apply E3].
-        intro K. apply names_method_spec in K. congruence.
-  - intros [pre [post [E1 [E2 E3]]]]. subst cfg.
+      * intros c' [Hc|Hc]; [now subst c' | now apply E3].
+  - intros [pre [post [E1 [E2 E3]]]]. subst l.
     induction pre as [|c pre IH]; simpl.
-    + apply names_method_spec in E2. now rewrite E2.
-    + destruct (names_method service method c) eqn:E.
-      * exfalso. apply (E3 c); [now left | now apply names_method_spec].
-      * apply IH. intros c' Hc. apply E3. now right.
+    + now rewrite E2.
+    + rewrite (E3 c (or_introl eq_refl)). apply IH. intros c' Hc. apply E3. now right.
+Qed.
+
+Lemma find_none_iff : forall (A : Type) (f : A -> bool) (l : list A),
+  find f l = None <-> (forall c, In c l -> f c = false).
+Proof.
+  intros A f l. split.
+  - intros H c Hc. exact (find_none f l H c Hc).
+  - intro H. induction l as [|c l IH]; simpl; [reflexivity|].
+    rewrite (H c (or_introl eq_refl)). apply IH. intros c' Hc. apply H. now right.
+Qed.
+
+Definition names_exactly (service method : string) (mc : method_config) : Prop :=
+  In (mkName (Some service) (Some method)) (mc_names mc).
+Definition names_whole_service (service : string) (mc : method_config) : Prop :=
+  exists n, In n (mc_names mc) /\ service_wide service n.
+
+Lemma names_method_false : forall service method mc,
+  names_method service method mc = false <-> ~ names_exactly service method mc.
+Proof.
+  intros. unfold names_exactly. rewrite <- names_method_spec.
+  destruct (names_method service method mc); split; intro H.
+  - discriminate.
+  - exfalso. apply H. reflexivity.
+  - intro K. discriminate.
+  - reflexivity.
+Qed.
+
+Lemma names_service_false : forall service mc,
+  names_service service mc = false <-> ~ names_whole_service service mc.
+Proof.
+  intros. unfold names_whole_service. rewrite <- names_service_spec.
+  destruct (names_service service mc); split; intro H.
+  - discriminate.
+  - exfalso. apply H. reflexivity.
+  - intro K. discriminate.
+  - reflexivity.
+Qed.
+
+(* first stage: the first entry of the list that names the method exactly *)
+Lemma selector_first_match : forall cfg service method mc,
+  lookup_exact cfg service method = Some mc <->
+  exists pre post, cfg = (pre ++ mc :: post)%list /\ names_exactly service method mc /\
+                   (forall c, In c pre -> ~ names_exactly service method c).
+Proof.
+  intros cfg service method mc. unfold lookup_exact. rewrite find_first_spec. split;
+    intros [pre [post [E1 [E2 E3]]]]; exists pre, post; repeat split; try exact E1.
+  - now apply names_method_spec.
+  - intros c Hc. apply names_method_false. now apply E3.
+  - now apply names_method_spec.
+  - intros c Hc. apply names_method_false. now apply E3.
+Qed.
+
+(* the two-stage lookup: an exact name anywhere in the list beats every service-wide name; without one, the first
+   entry that names the whole service applies *)
+Lemma selector_exact_then_service : forall cfg service method mc,
+  lookup cfg service method = Some mc <->
+  (exists pre post, cfg = (pre ++ mc :: post)%list /\ names_exactly service method mc /\
+                    (forall c, In c pre -> ~ names_exactly service method c))
+  \/
+  ((forall c, In c cfg -> ~ names_exactly service method c) /\
+   exists pre post, cfg = (pre ++ mc :: post)%list /\ names_whole_service service mc /\
+                    (forall c, In c pre -> ~ names_whole_service service c)).
+Proof.
+  intros cfg service method mc. unfold lookup.
+  destruct (lookup_exact cfg service method) as [mc'|] eqn:E.
+  - split.
+    + intro H. inversion H. subst mc'. left. now apply selector_first_match.
+    + intros [H|[H _]].
+      * apply selector_first_match in H. congruence.
+      * exfalso. apply selector_first_match in E. destruct E as [pre [post [E1 [E2 _]]]].
+        apply (H mc'); [subst cfg; apply in_or_app; right; now left | exact E2].
+  - unfold lookup_exact in E. rewrite find_none_iff in E.
+    unfold lookup_service. rewrite find_first_spec. split.
+    + intros [pre [post [E1 [E2 E3]]]]. right. split.
+      * intros c Hc. apply names_method_false. now apply E.
+      * exists pre, post. repeat split; [exact E1 | now apply names_service_spec |].
+        intros c Hc. apply names_service_false. now apply E3.
+    + intros [[pre [post [E1 [E2 _]]]]|[_ [pre [post [E1 [E2 E3]]]]]].
+      * exfalso. apply names_method_spec in E2. rewrite (E mc) in E2; [discriminate|].
+        subst cfg. apply in_or_app. right. now left.
+      * exists pre, post. repeat split; [exact E1 | now apply names_service_spec |].
+        intros c Hc. apply names_service_false. now apply E3.
 Qed.
 
 Lemma lookup_none : forall cfg service method,
   lookup cfg service method = None <->
-  (forall c, In c cfg -> ~ In (mkName (Some service) (Some method)) (mc_names c)).
+  (forall c, In c cfg -> ~ names_exactly service method c /\ ~ names_whole_service service c).
 Proof.
-  intros cfg service method. unfold lookup. split.
-  - intros H c Hc K. apply (find_none _ _ H) in Hc. apply names_method_spec in K. congruence.
-  - intro H. induction cfg as [|c cfg IH]; simpl; [reflexivity|].
-    destruct (names_method service method c) eqn:E.
-    + exfalso. apply (H c); [now left | now apply names_method_spec].
-    + apply IH. intros c' Hc. apply H. now right.
+  intros cfg service method. unfold lookup, lookup_exact, lookup_service. split.
+  - destruct (find (names_method service method) cfg) eqn:E; [discriminate|].
+    intros H c Hc. rewrite find_none_iff in E, H. split.
+    + apply names_method_false. now apply E.
+    + apply names_service_false. now apply H.
+  - intro H.
+    assert (E : find (names_method service method) cfg = None).
+    { apply find_none_iff. intros c Hc. apply names_method_false. now apply H. }
+    rewrite E. apply find_none_iff. intros c Hc. apply names_service_false. now apply H.
 Qed.
 
-(* the code as it is: an element that gives only the service (gRPC: every method of that service) never matches *)
-Lemma service_wide_entry_not_matched : forall cfg service method,
-  (forall c n, In c cfg -> In n (mc_names c) -> n_method n = None) ->
-  lookup cfg service method = None.
+(* a service-wide entry applies to every method of the service that no entry names exactly *)
+Lemma service_wide_entry_applies : forall cfg service method mc,
+  (forall c, In c cfg -> ~ names_exactly service method c) ->
+  In mc cfg -> names_whole_service service mc ->
+  exists mc', lookup cfg service method = Some mc' /\ names_whole_service service mc'.
 Proof.
-  intros cfg service method H. apply lookup_none. intros c Hc K.
-  specialize (H c _ Hc K). discriminate.
+  intros cfg service method mc Hno Hin Hw.
+  destruct (lookup cfg service method) as [mc'|] eqn:E.
+  - exists mc'. split; [reflexivity|]. apply selector_exact_then_service in E.
+    destruct E as [[pre [post [E1 [E2 _]]]]|[_ [pre [post [_ [E2 _]]]]]]; [|exact E2].
+    exfalso. apply (Hno mc'); [subst cfg; apply in_or_app; right; now left | exact E2].
+  - exfalso. rewrite lookup_none in E. destruct (E mc Hin) as [_ K]. now apply K.
 Qed.
 
 (* ------------------------------------------------------------------ _to_float *)
@@ -567,7 +671,7 @@ Section CallFacts.
   Qed.
 
   Lemma unnamed_method_single_attempt_no_deadline : forall cfg service method rep script,
-    (forall c, In c cfg -> ~ In (mkName (Some service) (Some method)) (mc_names c)) ->
+    (forall c, In c cfg -> ~ names_exactly service method c /\ ~ names_whole_service service c) ->
     emit cfg service method = GenOk (mkE None None) /\
     let tr := call jitter (mkE None None) UseDefault UseDefault (rep :: script) in
     t_attempts tr = 1%nat /\ t_timeouts tr = [None] /\ t_sleeps tr = [] /\
@@ -611,8 +715,8 @@ Example ex_hypotheses :
     GenOk (mkE (Some (mkER (Some (5 # 10)) (Some (1250 # 1000)) (Some (13 # 10)) ["DeadlineExceeded"; "ServiceUnavailable"] (Some (60 # 1))))
                (Some (60 # 1)))
   /\ emit ex_cfg "p.v1.Alpha" "Other" = GenOk (mkE None None)
-  (* the code as it is: the entry that names the whole service Beta does not apply to its methods *)
-  /\ emit ex_cfg "p.v1.Beta" "Anything" = GenOk (mkE None None)
+  (* the entry that names the whole service Beta applies to each of its methods *)
+  /\ emit ex_cfg "p.v1.Beta" "Anything" = GenOk (mkE None (Some (9 # 1)))
   /\ Forall (fun c => In c ERR_CODES) ["UNAVAILABLE"; "DEADLINE_EXCEEDED"]
   /\ 0 <= r_initial ex_params /\ 0 <= r_maximum ex_params /\ 1 <= r_multiplier ex_params
   /\ Forall (fun c => accepts (r_classes ex_params) c = true) ["UNAVAILABLE"; "DEADLINE_EXCEEDED"; "UNAVAILABLE"]
